@@ -214,6 +214,44 @@ theorem chunked_roundtrip (w : W) (hw : ChunkedReady w) (ops : List BodyOp) (fin
     · have := decode_encodeChunks (ops.map BodyOp.data) []
       simpa using this
 
+/-- what was written, as a list of chunks: the `write` calls, then the `write_eof(d)` data -/
+def writtenChunks (ops : List BodyOp) (fin : Option Bytes) : List Bytes :=
+  ops.map BodyOp.data ++ (match fin with | some d => [d] | none => [])
+
+/-- **The exact wire form of a chunked message**: header block, one frame per non-empty write,
+the last-chunk. (`chunked_roundtrip` is this followed by the reference decoder.) -/
+theorem chunked_wire (w : W) (hw : ChunkedReady w) (ops : List BodyOp) (fin : Option Bytes) :
+    let r := run w (ops.map BodyOp.toOp ++ [finOp fin])
+    r.1.out = flushed w ++ (encodeChunks (writtenChunks ops fin) ++ lastChunk) ∧ r.1.eof = true ∧
+      (∀ e ∈ r.2, e = none) := by
+  have run_append : ∀ (w : W) (a b : List Op),
+      run w (a ++ b) = ((run (run w a).1 b).1, (run w a).2 ++ (run (run w a).1 b).2) := by
+    intro w a b
+    induction a generalizing w with
+    | nil => simp [run]
+    | cons x xs ih => simp [run, ih]
+  obtain ⟨h1, h2, h3⟩ := run_body_chunked w hw ops
+  simp only [run_append]
+  cases fin with
+  | some d =>
+    obtain ⟨e1, e2, e3⟩ := step_writeEof_chunked _ h1 d [] []
+    refine ⟨?_, ?_, ?_⟩
+    · simp [finOp, run, e3, h3, encodeChunks, writtenChunks]
+    · simpa [finOp, run] using e2
+    · intro e he
+      rcases List.mem_append.mp he with he | he
+      · exact h2 e he
+      · simp [finOp, run] at he; rw [he]; exact e1
+  | none =>
+    obtain ⟨e1, e2, e3⟩ := step_setEof_chunked _ h1
+    refine ⟨?_, ?_, ?_⟩
+    · simp [finOp, run, e3, h3, writtenChunks]
+    · simpa [finOp, run] using e2
+    · intro e he
+      rcases List.mem_append.mp he with he | he
+      · exact h2 e he
+      · simp [finOp, run] at he; rw [he]; exact e1
+
 /-- **No premature terminator.** Before end-of-message, the body bytes on the wire never
 contain anything but complete non-empty chunks: in particular `write(b"")` emits no body
 byte (a zero-size chunk would end the message early). -/
